@@ -126,9 +126,10 @@ def r2_level_predicate(ctx, rep, R='C09.R2'):
     level_loc, _ = _getattr_local(fi, 'level')
     ys = [n for n in ast.walk(fi.node) if isinstance(n, ast.Yield) and isinstance(n.value, ast.Tuple)
           and len(n.value.elts) == 2 and not isinstance(n.value.elts[1], ast.Constant)]
+    from .common import guard_literals
     guards = []
     for y in ys:
-        lits = path_literals(y._parent, fi.node)
+        lits = guard_literals(ctx, fi, y)
         guards.append(lits)
     vocab_ok = True
     for lits in guards:
